@@ -190,6 +190,19 @@ def check_case(ctx, case):
         ctx.cleanup_case(d)
         return res.violate('skeleton', 'bklr output not empty although there is no marker', layers=layers, out=r.out.decode())
     res.ev('skeleton_agreed')
+    if case.get('i', 0) % 4 == 1:
+        # -o onto an existing, longer file (an older skeleton): the file must hold exactly what stdout gets
+        oname = 'todo.' + ofmt
+        with open(os.path.join(d, oname), 'w') as f:
+            f.write(('{"old": {"deep": {"marker": "$required"}}, "pad": "' + 'x' * 600 + '"}\n') if ofmt == 'json' else ('old:\n  deep:\n    marker: $required\n' + 'pad%d: x\n' * 80) % tuple(range(80)))
+        ro = cli([ctx.bin('bklr'), '-o', oname, top], cwd=d)
+        res.execs += 1
+        held = open(os.path.join(d, oname), 'rb').read() if ro.rc == 0 else None
+        if held != r.out or ro.out:
+            ctx.cleanup_case(d)
+            return res.violate('skeleton', 'bklr -o onto an existing file does not leave exactly the skeleton in it (rc=%s)' % ro.rc, layers=layers,
+                               stdout_version=r.out.decode('utf-8', 'replace'), file=(held or b'').decode('utf-8', 'replace')[:600])
+        res.ev('output_file_replaced')
     res.labels.add('skeleton:' + ('empty' if want is None else 'nonempty'))
     # idempotence
     if want is not None:
